@@ -194,6 +194,10 @@ pub mod ed25519_dalek {
                 r matches Ok(s) ==> sig_parse(b@) == Some(s),
         { unimplemented!() }
         #[verifier::external_body]
+        pub fn from_bytes(b: &[u8; 64]) -> (r: Signature)
+            ensures sig_parse(b@) == Some(r),
+        { unimplemented!() }
+        #[verifier::external_body]
         pub fn to_bytes(&self) -> (r: [u8; 64])
             ensures sig_parse(r@) == Some(*self),
         { unimplemented!() }
@@ -325,10 +329,16 @@ pub mod secp256k1 {
         pub uninterp spec fn sigc_ok(b: Seq<u8>) -> bool;
         pub uninterp spec fn sigc_of(b: Seq<u8>) -> Signature;
         pub uninterp spec fn sigc_bytes(s: &Signature) -> Seq<u8>;
+        pub uninterp spec fn sig_normalized(s: &Signature) -> Signature;
         impl Signature {
             #[verifier::external_body]
             pub fn from_compact(b: &[u8]) -> (r: Result<Self, super::Error>)
                 ensures r is Ok <==> sigc_ok(b@), r matches Ok(s) ==> s == sigc_of(b@),
+            { unimplemented!() }
+            /// libsecp256k1: replaces a high-S signature by its low-S twin (no relation to `lib_verify` is assumed)
+            #[verifier::external_body]
+            pub fn normalize_s(&mut self)
+                ensures *final(self) == sig_normalized(old(self)),
             { unimplemented!() }
             #[verifier::external_body]
             pub fn serialize_compact(&self) -> (r: [u8; 64])
@@ -377,6 +387,14 @@ pub mod base64 {
     use super::super::sp::*;
     use vstd::prelude::*;
     pub struct DecodeError { pub _p: () }
+    impl core::fmt::Display for DecodeError {
+        #[verifier::external_body]
+        fn fmt(&self, f: &mut core::fmt::Formatter<'_>) -> core::fmt::Result { unimplemented!() }
+    }
+    impl core::fmt::Debug for DecodeError {
+        #[verifier::external_body]
+        fn fmt(&self, f: &mut core::fmt::Formatter<'_>) -> core::fmt::Result { unimplemented!() }
+    }
     /// text produced by engine `e` for bytes `b` (the engines are distinguished by their ghost id)
     pub uninterp spec fn b64_text(e: int, b: Seq<u8>) -> Seq<u8>;
     /// base64: distinct byte strings have distinct texts
@@ -544,6 +562,14 @@ pub mod serde {
     }
     pub trait Deserialize<'de>: Sized {
         fn deserialize<D: Deserializer<'de>>(deserializer: D) -> Result<Self, D::Error>;
+    }
+    /// `&str: Deserialize`: a BORROWED string; succeeds only for deserializers that can lend their input (serde_json's
+    /// `from_str`/`from_slice` can, `from_value`/`from_reader` cannot), so success is not guaranteed even when a string is held
+    impl<'de> Deserialize<'de> for &'de str {
+        #[verifier::external_body]
+        fn deserialize<D: Deserializer<'de>>(deserializer: D) -> (r: Result<Self, D::Error>)
+            ensures r matches Ok(x) ==> deserializer.de_string() == Some(x@),
+        { unimplemented!() }
     }
     /// `String: Deserialize`: yields exactly the string the deserializer holds, an error if it holds something else
     pub uninterp spec fn de_err<E>() -> E;
